@@ -7,38 +7,106 @@ namespace Ampverif.Lemmas.C18
 open Ampverif.Model
 
 mutual
-theorem psumDepth_subst1_lit (v : Variant) (hv : v.sound) (x : Sym) (q : Q) :
-    ∀ e : Expr, psumDepth (subst1 v x (.rat q) e) = psumDepth e
-  | .sym s => by by_cases h : s = x <;> simp [subst1, psumDepth, h]
+theorem psumDepth_of_noPsum : ∀ e : Expr, noPsum e = true → psumDepth e = 0
+  | .sym _, _ => by simp [psumDepth]
+  | .rat _, _ => by simp [psumDepth]
+  | .add es, h => by simp only [psumDepth]; exact psumDepthList_of_noPsum es (by simpa [noPsum] using h)
+  | .mul es, h => by simp only [psumDepth]; exact psumDepthList_of_noPsum es (by simpa [noPsum] using h)
+  | .pow b _, h => by simp only [psumDepth]; exact psumDepth_of_noPsum b (by simpa [noPsum] using h)
+  | .app _ es, h => by simp only [psumDepth]; exact psumDepthList_of_noPsum es (by simpa [noPsum] using h)
+  | .node _ es _, h => by simp only [psumDepth]; exact psumDepthList_of_noPsum es (by simpa [noPsum] using h)
+  | .psum _ _, h => by simp [noPsum] at h
+  | .idx _ es, h => by simp only [psumDepth]; exact psumDepthList_of_noPsum es (by simpa [noPsum] using h)
+theorem psumDepthList_of_noPsum : ∀ es : List Expr, noPsumList es = true → psumDepthList es = 0
+  | [], _ => by simp [psumDepthList]
+  | e :: es, h => by
+      have h' : noPsum e = true ∧ noPsumList es = true := by simpa [noPsumList] using h
+      simp [psumDepthList, psumDepth_of_noPsum e h'.1, psumDepthList_of_noPsum es h'.2]
+end
+
+/-- the nesting depth (pool values included) is 0 exactly for pool-sum-free terms. -/
+theorem noPsum_of_psumDepth_zero : ∀ e : Expr, psumDepth e = 0 → noPsum e = true := by
+  have key : ∀ n : Nat, (∀ e : Expr, sizeOf e ≤ n → psumDepth e = 0 → noPsum e = true) ∧
+      (∀ es : List Expr, sizeOf es ≤ n → psumDepthList es = 0 → noPsumList es = true) := by
+    intro n
+    induction n with
+    | zero =>
+      constructor
+      · intro e h; cases e <;> simp at h <;> omega
+      · intro es h; cases es <;> simp at h <;> omega
+    | succ n ih =>
+      constructor
+      · intro e hsz hd
+        cases e with
+        | sym s => simp [noPsum]
+        | rat r => simp [noPsum]
+        | add es => simp only [psumDepth, noPsum] at hd ⊢; exact ih.2 es (by simp at hsz; omega) hd
+        | mul es => simp only [psumDepth, noPsum] at hd ⊢; exact ih.2 es (by simp at hsz; omega) hd
+        | pow b k => simp only [psumDepth, noPsum] at hd ⊢; exact ih.1 b (by simp at hsz; omega) hd
+        | app f es => simp only [psumDepth, noPsum] at hd ⊢; exact ih.2 es (by simp at hsz; omega) hd
+        | node c es t => simp only [psumDepth, noPsum] at hd ⊢; exact ih.2 es (by simp at hsz; omega) hd
+        | psum b ixs => simp [psumDepth] at hd
+        | idx f es => simp only [psumDepth, noPsum] at hd ⊢; exact ih.2 es (by simp at hsz; omega) hd
+      · intro es hsz hd
+        cases es with
+        | nil => simp [noPsumList]
+        | cons e es =>
+          simp only [psumDepthList] at hd
+          have l1 : psumDepth e ≤ Nat.max (psumDepth e) (psumDepthList es) := Nat.le_max_left _ _
+          have l2 : psumDepthList es ≤ Nat.max (psumDepth e) (psumDepthList es) := Nat.le_max_right _ _
+          have h1 : psumDepth e = 0 := by omega
+          have h2 : psumDepthList es = 0 := by omega
+          simp only [noPsumList, Bool.and_eq_true]
+          exact ⟨ih.1 e (by simp at hsz; omega) h1, ih.2 es (by simp at hsz; omega) h2⟩
+  intro e hd
+  exact (key (sizeOf e)).1 e (Nat.le_refl _) hd
+
+theorem psumDepthBinders_of_noPsum : ∀ ixs : List Binder, noPsumBinders ixs = true → psumDepthBinders ixs = 0
+  | [], _ => by simp [psumDepthBinders]
+  | (i, pool) :: rest, h => by
+      have h' : noPsumList pool = true ∧ noPsumBinders rest = true := by simpa [noPsumBinders] using h
+      simp [psumDepthBinders, psumDepthList_of_noPsum pool h'.1, psumDepthBinders_of_noPsum rest h'.2]
+
+mutual
+theorem psumDepth_subst1 (v : Variant) (hv : v.sound) (x : Sym) (a : Expr) (ha : psumDepth a = 0) :
+    ∀ e : Expr, psumDepth (subst1 v x a e) = psumDepth e
+  | .sym s => by by_cases h : s = x <;> simp [subst1, psumDepth, h, ha]
   | .rat r => by simp [subst1, psumDepth]
-  | .add es => by simp [subst1, psumDepth, psumDepthList_subst1_lit v hv x q es]
-  | .mul es => by simp [subst1, psumDepth, psumDepthList_subst1_lit v hv x q es]
-  | .pow b n => by simp [subst1, psumDepth, psumDepth_subst1_lit v hv x q b]
-  | .app f es => by simp [subst1, psumDepth, psumDepthList_subst1_lit v hv x q es]
+  | .add es => by simp [subst1, psumDepth, psumDepthList_subst1 v hv x a ha es]
+  | .mul es => by simp [subst1, psumDepth, psumDepthList_subst1 v hv x a ha es]
+  | .pow b n => by simp [subst1, psumDepth, psumDepth_subst1 v hv x a ha b]
+  | .app f es => by simp [subst1, psumDepth, psumDepthList_subst1 v hv x a ha es]
   | .node c es t => by
       have hr : v.getArgsRecursive = false := hv.1
-      simp [subst1, psumDepth, hr, psumDepthList_subst1_lit v hv x q es]
+      simp [subst1, psumDepth, hr, psumDepthList_subst1 v hv x a ha es]
   | .psum b ixs => by
       by_cases hx : x ∈ names ixs
       · rw [subst1_psum_mem v hv x _ b ixs hx]
       · rw [subst1_psum_not_mem v hv x _ b ixs hx]
-        simp [psumDepth, psumDepth_subst1_lit v hv x q b]
-  | .idx f es => by simp [subst1, psumDepth, psumDepthList_subst1_lit v hv x q es]
-theorem psumDepthList_subst1_lit (v : Variant) (hv : v.sound) (x : Sym) (q : Q) :
-    ∀ es : List Expr, psumDepthList (subst1List v x (.rat q) es) = psumDepthList es
+        simp [psumDepth, psumDepth_subst1 v hv x a ha b, psumDepthBinders_subst1 v hv x a ha ixs]
+  | .idx f es => by simp [subst1, psumDepth, psumDepthList_subst1 v hv x a ha es]
+theorem psumDepthList_subst1 (v : Variant) (hv : v.sound) (x : Sym) (a : Expr) (ha : psumDepth a = 0) :
+    ∀ es : List Expr, psumDepthList (subst1List v x a es) = psumDepthList es
   | [] => by simp [subst1List, psumDepthList]
   | e :: es => by
-      simp [subst1List, psumDepthList, psumDepth_subst1_lit v hv x q e, psumDepthList_subst1_lit v hv x q es]
+      simp [subst1List, psumDepthList, psumDepth_subst1 v hv x a ha e, psumDepthList_subst1 v hv x a ha es]
+theorem psumDepthBinders_subst1 (v : Variant) (hv : v.sound) (x : Sym) (a : Expr) (ha : psumDepth a = 0) :
+    ∀ ixs : List (Sym × List Expr), psumDepthBinders (subst1Binders v x a ixs) = psumDepthBinders ixs
+  | [] => by simp [subst1Binders, psumDepthBinders]
+  | (i, pool) :: rest => by
+      simp [subst1Binders, psumDepthBinders, psumDepthList_subst1 v hv x a ha pool,
+        psumDepthBinders_subst1 v hv x a ha rest]
 end
 
-theorem psumDepth_substSeq_lit (v : Variant) (hv : v.sound) (c : List (Sym × Q)) :
-    ∀ e : Expr, psumDepth (substSeq v (litPairs c) e) = psumDepth e := by
+theorem psumDepth_substSeq (v : Variant) (hv : v.sound) (c : List (Sym × Expr)) :
+    ∀ e : Expr, (∀ p ∈ c, noPsum p.2 = true) → psumDepth (substSeq v c e) = psumDepth e := by
   induction c with
-  | nil => intro e; simp [litPairs, substSeq]
+  | nil => intro e _; simp [substSeq]
   | cons p c ih =>
-    intro e
-    obtain ⟨i, q⟩ := p
-    rw [substSeq_litPairs_cons, ih, psumDepth_subst1_lit v hv]
+    intro e h
+    obtain ⟨i, a⟩ := p
+    rw [substSeq_cons, ih _ (fun p hp => h p (List.mem_cons_of_mem _ hp)),
+      psumDepth_subst1 v hv i a (psumDepth_of_noPsum a (h (i, a) List.mem_cons_self))]
 
 theorem psumDepthList_map_le {α : Type} (l : List α) (f : α → Expr) (m : Nat)
     (h : ∀ a ∈ l, psumDepth (f a) ≤ m) : psumDepthList (l.map f) ≤ m := by
@@ -50,45 +118,53 @@ theorem psumDepthList_map_le {α : Type} (l : List α) (f : α → Expr) (m : Na
     simp only [List.map_cons, psumDepthList]
     exact Nat.max_le.mpr ⟨h1, h2⟩
 
-theorem psumDepth_evaluate_le (v : Variant) (hv : v.sound) (b : Expr) (ixs : List Binder) :
+theorem psumDepth_evaluate_le (v : Variant) (hv : v.sound) (b : Expr) (ixs : List Binder)
+    (hw : wfSums (.psum b ixs) = true) :
     psumDepth (evaluate v (.psum b ixs)) ≤ psumDepth b := by
+  obtain ⟨hnd, _, hnp, _, _⟩ := wfSums_psum hw
   simp only [evaluate, psumDepth]
+  rw [dictOf_nodup ixs hnd]
   apply psumDepthList_map_le
-  intro c _
-  rw [psumDepth_substSeq_lit v hv]
+  intro c hc
+  rw [psumDepth_substSeq v hv c b (fun p hp => (assignments_vals ixs hnp c hc p hp).1)]
 
 mutual
 theorem psumDepth_doitPass (v : Variant) (hv : v.sound) (k : Expr → Expr) (m : Nat)
-    (hk : ∀ e : Expr, psumDepth e ≤ m → psumDepth (k e) = 0) :
-    ∀ e : Expr, psumDepth e ≤ m + 1 → psumDepth (doitPass v k e) = 0
-  | .sym s, _ => by simp [doitPass, psumDepth]
-  | .rat q, _ => by simp [doitPass, psumDepth]
-  | .add es, h => by
-      simp only [doitPass, psumDepth] at h ⊢; exact psumDepthList_doitPass v hv k m hk es h
-  | .mul es, h => by
-      simp only [doitPass, psumDepth] at h ⊢; exact psumDepthList_doitPass v hv k m hk es h
-  | .pow b n, h => by
-      simp only [doitPass, psumDepth] at h ⊢; exact psumDepth_doitPass v hv k m hk b h
-  | .app f es, h => by
-      simp only [doitPass, psumDepth] at h ⊢; exact psumDepthList_doitPass v hv k m hk es h
-  | .node c es t, h => by
-      simp only [doitPass, psumDepth] at h ⊢; exact psumDepthList_doitPass v hv k m hk es h
-  | .psum b ixs, h => by
+    (hk : ∀ e : Expr, wfSums e = true → psumDepth e ≤ m → psumDepth (k e) = 0) :
+    ∀ e : Expr, wfSums e = true → psumDepth e ≤ m + 1 → psumDepth (doitPass v k e) = 0
+  | .sym s, _, _ => by simp [doitPass, psumDepth]
+  | .rat q, _, _ => by simp [doitPass, psumDepth]
+  | .add es, hw, h => by
+      simp only [doitPass, psumDepth, wfSums] at hw h ⊢; exact psumDepthList_doitPass v hv k m hk es hw h
+  | .mul es, hw, h => by
+      simp only [doitPass, psumDepth, wfSums] at hw h ⊢; exact psumDepthList_doitPass v hv k m hk es hw h
+  | .pow b n, hw, h => by
+      simp only [doitPass, psumDepth, wfSums] at hw h ⊢; exact psumDepth_doitPass v hv k m hk b hw h
+  | .app f es, hw, h => by
+      simp only [doitPass, psumDepth, wfSums] at hw h ⊢; exact psumDepthList_doitPass v hv k m hk es hw h
+  | .node c es t, hw, h => by
+      simp only [doitPass, psumDepth, wfSums] at hw h ⊢; exact psumDepthList_doitPass v hv k m hk es hw h
+  | .psum b ixs, hw, h => by
       simp only [doitPass]
-      apply hk
-      have hb : psumDepth b ≤ m := by simp only [psumDepth] at h; omega
-      exact Nat.le_trans (psumDepth_evaluate_le v hv b ixs) hb
-  | .idx f es, h => by
-      simp only [doitPass, psumDepth] at h ⊢; exact psumDepthList_doitPass v hv k m hk es h
+      apply hk _ (wfSums_evaluate v hv b ixs hw)
+      have hb : psumDepth b ≤ m := by
+        simp only [psumDepth] at h
+        have l1 : psumDepth b ≤ Nat.max (psumDepth b) (psumDepthBinders ixs) := Nat.le_max_left _ _
+        omega
+      exact Nat.le_trans (psumDepth_evaluate_le v hv b ixs hw) hb
+  | .idx f es, hw, h => by
+      simp only [doitPass, psumDepth, wfSums] at hw h ⊢; exact psumDepthList_doitPass v hv k m hk es hw h
 theorem psumDepthList_doitPass (v : Variant) (hv : v.sound) (k : Expr → Expr) (m : Nat)
-    (hk : ∀ e : Expr, psumDepth e ≤ m → psumDepth (k e) = 0) :
-    ∀ es : List Expr, psumDepthList es ≤ m + 1 → psumDepthList (doitPassList v k es) = 0
-  | [], _ => by simp [doitPassList, psumDepthList]
-  | e :: es, h => by
+    (hk : ∀ e : Expr, wfSums e = true → psumDepth e ≤ m → psumDepth (k e) = 0) :
+    ∀ es : List Expr, wfSumsList es = true → psumDepthList es ≤ m + 1 →
+      psumDepthList (doitPassList v k es) = 0
+  | [], _, _ => by simp [doitPassList, psumDepthList]
+  | e :: es, hw, h => by
+      have hw' : wfSums e = true ∧ wfSumsList es = true := by simpa [wfSumsList] using hw
       simp only [psumDepthList] at h
       have h' := Nat.max_le.mp h
-      simp only [doitPassList, psumDepthList, psumDepth_doitPass v hv k m hk e h'.1,
-        psumDepthList_doitPass v hv k m hk es h'.2]
+      simp only [doitPassList, psumDepthList, psumDepth_doitPass v hv k m hk e hw'.1 h'.1,
+        psumDepthList_doitPass v hv k m hk es hw'.2 h'.2]
       rfl
 end
 
